@@ -85,8 +85,76 @@ def gen_random(tier, seed):
     return cases
 
 
+def obey_monitor(case, il, sl):
+    """From the property text: the client's TuneOk carries the documented negotiation, no channel
+    id above the negotiated channel_max is ever used (and the ids are usable up to it), no body frame
+    on the wire is longer than the negotiated frame_max including its 8 bytes of framing, and bodies arrive
+    intact."""
+    t = case.ops[0].split()
+    cch, cfm, chb, sch, sfm, shb, nopen = map(int, t[1:8])
+    fm = neg(2 ** 32 - 1, cfm, sfm)
+    ch = neg(65535, cch, sch)
+    lines = [l for l in il if l and not l.startswith("#")]
+    if any(l in ("client PANIC", "client hung") for l in lines):
+        return ("%s: %s" % (case.ops[0], [l for l in lines if l.startswith("client")][0]), "c15-crash")
+    if fm < 4096:
+        if not any(l.startswith("open err FrameMaxTooSmall") for l in lines):
+            return ("negotiated frame_max %d < 4096 must fail with FrameMaxTooSmall, got %s" % (fm, lines[:3]), "c15-obey-tune")
+        return None
+    want = "tune-ok %d %d %d" % (ch, fm, min(chb, shb))
+    if not lines or lines[0] != want:
+        return ("TuneOk on the wire is %r, the documented negotiation gives %r" % (lines[:1], want), "c15-obey-tune")
+    for l in lines:
+        if l.startswith("channels "):
+            kv = dict(x.split("=") for x in l.split()[1:])
+            if int(kv["max-id"]) > ch:
+                return ("channel id %s used, negotiated channel_max is %d" % (kv["max-id"], ch), "c15-obey-channel")
+            if int(kv["opened"]) < min(nopen, ch):
+                return ("only %s channels could be opened (%s), negotiated channel_max is %d and %d were asked for" % (kv["opened"], kv["err"], ch, nopen), "c15-obey-channel")
+            if nopen > ch and kv["err"] != "ExhaustedChannelIds":
+                return ("opening more channels than channel_max %d gave %s" % (ch, kv["err"]), "c15-obey-channel")
+        elif l.startswith("publish "):
+            sz = int(l.split()[1])
+            if " err " in l:
+                return ("publish of %d bytes failed: %s" % (sz, l), "c15-obey-publish")
+            kv = dict(x.split("=") for x in l.split()[2:])
+            if int(kv["max-frame"]) > fm:
+                return ("a body of %d bytes was sent with a body frame of %s bytes; negotiated frame_max is %d" % (sz, kv["max-frame"], fm), "c15-obey-frame")
+            if kv["intact"] != "t" or kv["announced"] != str(sz):
+                return ("a body of %d bytes did not reach the wire intact: %s" % (sz, l), "c15-obey-publish")
+    if "done" not in lines:
+        return ("scenario did not finish: %s" % lines[-2:], "c15-crash")
+    return None
+
+
+def gen_obey(tier, seed):
+    rng = Rng(seed + 1515)
+    cases = []
+    combos = [(0, 0, 0, 3, 4096, 0), (2, 8192, 0, 5, 4096, 60), (5, 4096, 60, 2, 0, 0), (0, 0, 0, 0, 131072, 0), (1, 0, 0, 0, 5000, 0),
+              (0, 4097, 0, 7, 131072, 0), (0, 0, 0, 3, 4095, 0), (0, 4000, 0, 3, 0, 0)]
+    if tier != "quick":
+        for _ in range(40):
+            combos.append((rng.choice([0, 1, 2, 3, 9]), rng.choice([0, 4096, 4097, 5000, 8192, 65536, 131072, 4095]), rng.choice([0, 0, 60]),
+                           rng.choice([0, 1, 2, 4, 11]), rng.choice([0, 4096, 4099, 6000, 16384, 131072, 1000]), rng.choice([0, 0, 60, 600])))
+    for i, c in enumerate(combos):
+        fm = neg(2 ** 32 - 1, c[1], c[4])
+        ch = neg(65535, c[0], c[3])
+        if fm >= 4096 and fm <= 2 ** 20:
+            P = fm - 8
+            sizes = [0, 1, P - 1, P, P + 1, P + 7, P + 8, P + 9, 2 * P - 1, 2 * P, 2 * P + 1, 2 * P + 8, 3 * P + 5]
+            if tier != "quick":
+                sizes += [rng.randint(1, 4 * P) for _ in range(6)] + [k * P + r for k in (1, 2, 3) for r in range(1, 9)]
+        else:
+            sizes = [0, 1, 4088, 4089, 131064, 131073, 300000]
+        nopen = min(ch + 2, 14)
+        cases.append(Case("o%d" % i, ["run %d %d %d %d %d %d %d %s" % (c + (nopen, " ".join(map(str, sizes))))], {"keep_prefix": 0}))
+    return cases
+
+
 def suites(tier, seed):
     return [
+        Suite("obeyed-e2e", "obey", lambda: gen_obey(tier, seed), monitor=obey_monitor, nontrivial=lambda c, il: True, shards=4, timeout=300,
+              rule="real connection + I/O thread over the mock transport with a broker announcing the server's triple: client x server tunings incl. 0 = no limit on either side and frame_max below the minimum; channels opened until the ids run out (id <= negotiated channel_max, ExhaustedChannelIds exactly when full); bodies of 0, 1 and k*(frame_max-8)+{-1..9} bytes published (every body frame on the wire <= negotiated frame_max, body intact); exact diff against the Lean model (Tune.makeTuneOk + Slots + Split.splitBody under Tune.payloadLimit)"),
         Suite("tune-lattice", "tune", lambda: gen_lattice(tier), monitor=monitor, nontrivial=nontrivial, spec_engine="tune-spec", exhaustive=True,
               rule="ALL combinations of the boundary lattice channel_max in %s x frame_max in %s x heartbeat in %s on both sides (%d negotiations)" % (CH, FM, HB, (len(CH) * len(FM) * len(HB)) ** 2)),
         Suite("tune-random", "tune", lambda: gen_random(tier, seed), monitor=monitor, nontrivial=nontrivial, spec_engine="tune-spec",
